@@ -90,9 +90,9 @@ impl<'a> ScriptGen<'a> {
             .map(|e| e.spec.replies_feature && Table::of(e).names.contains_key("alw"))
             .unwrap_or(false);
         if has_alw && rng.chance(2, 3) {
-            ReplyReq::Handler { name: "alw".into(), payload, recv: *rng.pick(&[0u8, 2]) }
+            ReplyReq::Handler { name: "alw".into(), payload, recv: *rng.pick(&[0u8, 2, 3, 6, 9, 5]) }
         } else {
-            ReplyReq::Raw { id: rng.below(2), on: rng.below(3) as u8, payload }
+            ReplyReq::Raw { id: rng.below(3), on: rng.below(4) as u8, payload }
         }
     }
 
